@@ -179,6 +179,40 @@ pub fn cases(tier: Tier) -> Vec<Case> {
             }
         }
     }
+    // three inputs: every NaN pattern with two value sets
+    let g3 = TreeGen {
+        k: 2,
+        preds: vec![r1(&[1.0, 0.0, 0.0], 0.0), r1(&[0.0, 1.0, -1.0], 0.0), r1(&[1.0, 1.0, 1.0], 1.0)],
+        terms: vec![Aff::identity(3), r1(&[1.0, -1.0, 2.0], 0.5)],
+        max_depth: 2,
+        max_nodes: 5,
+        partial: true,
+    };
+    for (i, t) in g3.all().into_iter().enumerate() {
+        if t.n_nodes() > 3 && i % (if tier == Tier::Quick { 7 } else { 2 }) != 0 {
+            continue;
+        }
+        let mut od = vec![];
+        fn collect3(t: &TSpec, od: &mut Vec<usize>) {
+            match t {
+                TSpec::Leaf(a) => od.push(a.outdim()),
+                TSpec::Dec(_, ch) => ch.iter().flatten().for_each(|c| collect3(c, od)),
+            }
+        }
+        collect3(&t, &mut od);
+        if od.windows(2).any(|w| w[0] != w[1]) {
+            continue;
+        }
+        for mask in 0..8u32 {
+            for vals in [[0.0, 1.0, -0.5], [0.5, 0.5, 0.5]] {
+                let refpt: Vec<Option<f64>> = (0..3).map(|j| if mask & (1 << j) != 0 { None } else { Some(vals[j]) }).collect();
+                v.push(Case::Slice { tree: t.clone(), refpt: refpt.clone(), elim: false });
+                if t.n_nodes() >= 3 && mask != 0 {
+                    v.push(Case::Slice { tree: t.clone(), refpt, elim: true });
+                }
+            }
+        }
+    }
     v
 }
 
